@@ -48,10 +48,37 @@ theorem overlay_copy (T L : Layer) (hL : L.WF) (pr nm : Bool) (f : SpecMap) :
   rw [← this]
   exact overlay_congr_says _ _ _ (fun _ => rfl)
 
-theorem flatten_persist3Fail (F T : Layer) (ps : Store) (hF : F.WF) :
+theorem layerSays_fill (F T : Layer) (q : Key) :
+    layerSays (fillLayer F T) q = match layerSays F q with | some x => some x | none => layerSays T q := by
+  unfold layerSays Layer.choose fillLayer
+  by_cases hq : isStor q = true
+  · simp only [hq, if_true, mapGet_fill]; cases mapGet F.stor q <;> rfl
+  · simp only [hq, Bool.false_eq_true, if_false, mapGet_fill]; cases mapGet F.mem q <;> rfl
+
+theorem Layer.WF_fill (F T : Layer) (hF : F.WF) (hT : T.WF) : (fillLayer F T).WF := by
+  refine ⟨MapWF_fill _ _ hF.1, MapWF_fill _ _ hF.2.1, ?_, ?_⟩
+  · intro e he
+    rcases mem_mapFill he with h | h
+    · exact hF.2.2.1 e h
+    · exact hT.2.2.1 e h
+  · intro e he
+    rcases mem_mapFill he with h | h
+    · exact hF.2.2.2 e h
+    · exact hT.2.2.2 e h
+
+theorem overlay_fill (F T : Layer) (f : SpecMap) : overlay (fillLayer F T) f = overlay F (overlay T f) := by
+  funext q
+  simp only [overlay, layerSays_fill]
+  cases layerSays F q with
+  | none => rfl
+  | some x => cases x <;> rfl
+
+/-- a failed flush leaves readable the union of the new and the swapped-out maps, newer values winning —
+exactly what was readable before it. -/
+theorem flatten_persist3Fail (F T : Layer) (ps : Store) (_hF : F.WF) :
     (Store.cached F (.cached T ps)).persist3Fail.flatten = (Store.cached F (.cached T ps)).flatten := by
   simp only [Store.persist3Fail, Store.flatten]
-  exact overlay_copy T F hF _ _ _
+  exact overlay_fill F T _
 
 /-- the whole flush of one store (private persist, PersistSync, or Persist with nothing in between). -/
 theorem flatten_persist (L : Layer) (ps : Store) (hL : L.WF) :
@@ -147,8 +174,7 @@ theorem flushStep_WF {s s' : Store} (st : FlushStep s s') (h : s.WF) : s'.WF := 
   | write F T ps => exact ⟨h.1, h.2.1, Store.WF_putChangeSet ps _ _ h.2.2 h.2.1.2.2⟩
   | finish F T ps _ => exact ⟨h.1, h.2.2⟩
   | fail F T ps =>
-    refine ⟨?_, h.2.2⟩
-    exact Layer.WF_putCS { F with mem := T.mem, stor := T.stor } F.mem F.stor h.2.1 h.1.2.2
+    exact ⟨Layer.WF_fill F T h.1 h.2.1, h.2.2⟩
   | whole L ps =>
     unfold Store.persist
     by_cases h0 : (L.count == 0) = true
